@@ -156,6 +156,11 @@ def first_body_node_loc(run):
         prove('decorated-first-statement-starts-at-its-decorator-line',
               z3.And(lift(out[1][0]) == holder['pd'].l, lt((lift(out[1][0]), lift(out[1][1])), holder['pf'].t)) if ok else False,
               clause='not after the decorator line (the decorator is the first token of the body)', path=p)
+        r = (lift(out[1][0]), lift(out[1][1])) if ok else None
+        prove('decorated-first-statement-starts-no-later-than-its-decorator-expression',
+              z3.Or(lt(r, holder['pd'].t), z3.And(r[0] == holder['pd'].l, r[1] == holder['pd'].c)) if ok else False,
+              clause='not after the first token of the decorator expression, wherever the layout puts it (`@(` newline `dec` newline `)`): a name read '
+                     'there belongs to the body', path=p)
     core.explore(body2, on2)
     run.case = None
 
@@ -184,6 +189,9 @@ def first_statement_call_sites(run):
             'parameter-read-by-the-decorator-of-a-leading-async-def': 'async def plugin(register):\n    @register.x\n    async def inner(): pass\n    return inner\n',
             'lambda-free-parameter-read-by-the-second-decorator-of-a-leading-class':
                 'def plugin(a, b):\n    @a\n    @b(a)\n    class Plugin: pass\n    return Plugin\n',
+            'parameter-read-by-a-parenthesised-decorator-on-its-own-line': 'def f(dec):\n    @(\n  dec\n    )\n    def g(): pass\n    return g\n',
+            'parameter-read-by-a-decorator-after-a-backslash': 'def f(dec):\n    @\\\ndec\n    class G: pass\n    return G\n',
+            'for-target-read-by-a-parenthesised-decorator-on-its-own-line': 'def o(xs, use):\n  for dec in xs:\n    @(\n dec)\n    def f(): pass\n    use(f)\n',
             'except-name-read-by-the-decorator-of-a-leading-class':
                 'def o(dec, E):\n  try:\n    pass\n  except E as e:\n    @dec(e)\n    class K: pass\n    return K\n',
         })
